@@ -48,9 +48,11 @@ class Session:
         if drain: e["drain"] = len(self.s.lines); self.s.add("drain")
         if self.full: e["get"] = len(self.s.lines); self.s.add("getall")
         self.ev.append(e)
-    def up(self, n, ty, d, seq=0, sv=0):
+    def up(self, n, ty, d, seq=0, sv=0, drain=True):
         pk = wire.packet([wire.msg(n, seq, ty, d)])
-        self._add("feed " + wire.hexs(pk), {"e": "up", "n": list(n), "ty": ty, "d": list(d), "sv": sv, "sq": seq}, drain=True)
+        self._add("feed " + wire.hexs(pk), {"e": "up", "n": list(n), "ty": ty, "d": list(d), "sv": sv, "sq": seq, "dr": 1 if drain else 0}, drain=drain)
+    def drain(self): self._add("drain", {"e": "drain", "_q": 1})
+    def read(self, k): self._add("readmsg" if k == "msg" else "readerr", {"e": "rd", "k": k, "_m": 1})
     def hl(self, fn, sargs, i=0):
         """sargs: id arguments in order (None = NULL); i: the numeric argument"""
         toks = []
@@ -120,6 +122,11 @@ def to_events(sess, rr):
         if not a: probs.append("missing output at line %d" % e["act"]); break
         ev = dict(e["tmpl"])
         for k in ev.pop("_copy", []): ev[k] = a[0].get(k)
+        if ev.pop("_q", None):
+            ev["qm"] = [wire.unhex(x) for x in a[0].get("msg", [])]; ev["qe"] = [wire.unhex(x) for x in a[0].get("err", [])]
+            ev["qi"] = [wire.unhex(x) for x in a[0].get("int", [])]
+        if ev.pop("_m", None): ev["m"] = wire.unhex(a[0]["m"]) if a[0].get("m") else []
+        if ev.get("e") == "up" and e["drain"] is None: ev["qm"] = []; ev["qe"] = []; ev["qi"] = []
         outs = list(a)
         if e["drain"] is not None:
             dq = out.get(e["drain"])
